@@ -304,8 +304,11 @@ class extract_visitor(NodeVisitor):
 
             if g.ifs:
                 for inode in g.ifs:
-                    self.visit_in_flow(inode, p)
+                    p = self.visit_in_flow(inode, p)
 
+        # the element is evaluated after all the iterables and conditions,
+        # although it is written before them: it gets a region of its own
+        p = self.make_flow('comp-elt', [p])
         elt = getattr(node, 'elt', None) or node.value  # type: ast.AST # type: ignore[union-attr]
         self.visit_in_flow(elt, p)
 
